@@ -12,13 +12,13 @@ import (
 // The reply catalogue (DESIGN.md E3): every wire form real devices produce for
 // a probe. A form is named by a string so that scenarios stay plain data.
 //
-//	te28 teFull teExt teOptsN(6..15) teQttl0 teQttl1 teQttl64 teQcsum teQtos      time exceeded (v4; teFull/teQ* also v6)
+//	te28 teFull teExt teOptsN(6..15) teQttl0 teQttl1 teQttl64 teQcsum teQtos      time exceeded (v4; teFull/teExt/teQ* also v6)
 //	duPort duHost duAdmin                                                        destination unreachable
 //	echo                                                                         echo reply
 //	synack rst rstack                                                            TCP direct replies to a SYN
-//	sack1 sack2 sack3 sackTS plainack                                            duplicate ACKs to a SACK probe
+//	sack1 sack2 sack3 sackTS sackEmpty plainack                                         duplicate ACKs to a SACK probe
 var ICMPErrForms4 = []string{"te28", "teFull", "teExt", "teOpts6", "teOpts15", "teQttl0", "teQttl64", "teQcsum", "teQtos"}
-var ICMPErrForms6 = []string{"teFull", "teQttl0", "teQttl64", "teQ16", "teQtos"}
+var ICMPErrForms6 = []string{"teFull", "teExt", "teQttl0", "teQttl64", "teQ16", "teQtos"}
 var DUForms = []string{"duPort", "duHost", "duAdmin"}
 
 // BuildCtx carries what direct TCP replies need beyond the probe.
@@ -171,7 +171,11 @@ func Build(form string, p *refcodec.Packet, from netip.Addr, c BuildCtx) ([]byte
 				q = append(q, 0)
 			}
 			q = q[:128]
-			rest[1] = 128 / 4
+			if p.V == 4 {
+				rest[1] = 128 / 4
+			} else {
+				rest[0] = 128 / 8 // ICMPv6: the length attribute is the first octet, in 64-bit words
+			}
 			obj := []byte{0, 8, 1, 1, 0x00, 0x06, 0x41, 0x01} // length 8, class 1 (MPLS), c-type 1, one label entry
 			ext := append([]byte{0x20, 0, 0, 0}, obj...)
 			binary.BigEndian.PutUint16(ext[2:], refcodec.Checksum(ext))
@@ -291,6 +295,10 @@ func Build(form string, p *refcodec.Packet, from netip.Addr, c BuildCtx) ([]byte
 			}
 			if len(blocks) > max {
 				blocks = blocks[:max]
+			}
+			if form == "sackEmpty" {
+				// one block whose edges coincide (no stack reports that; a middlebox or an off-path sender can)
+				blocks = [][2]uint32{{c.SackInitSeq + 1, c.SackInitSeq + 1}}
 			}
 			opts = append(opts, refcodec.OptNop()...)
 			opts = append(opts, refcodec.OptNop()...)
